@@ -302,3 +302,22 @@ def r5(cx):
                          "lower generation (e.g. the still-Active version of a shard already retired) is then accepted as fresh" % b.sp(rem[0]), [b.sp(rem[0])])
         else:
             cx.passed(ck, "router-never-forgets-a-generation", [b.j["span"]])
+
+
+@rule("C13", "R6", "one writer of shard documents: the conditional save of a shard document (atomic_save_shard) is called only from update_shard_metadata, which compares and raises the "
+      "generation - any other routine that rewrites the document (even with a correct ETag CAS) changes stored content under an unchanged generation, and an update based on the "
+      "older content is then accepted and reverts it")
+def r6(cx):
+    ASS = "metadata::s3::ObjectStoreMetadataClient::atomic_save_shard"
+    n = 0
+    for k, c in cx.prog.sites(lambda c: c == ASS):
+        p = named_parent(k)
+        if p == ASS:
+            continue
+        n += 1
+        if p.endswith("MetadataClient>::update_shard_metadata"):
+            cx.passed(p, "shard-document-writer", [c["sp"]])
+        else:
+            cx.violation(p, "shard-document-writer:%s" % p.rsplit("::", 1)[1], "%s: %s writes a shard document without going through update_shard_metadata: the document changes but its generation does "
+                         "not, so a writer that read the earlier content still passes the generation check and overwrites the change" % (c["sp"], p.rsplit("::", 1)[1]), [c["sp"]])
+    cx.floor("callers of atomic_save_shard", n, 2)
